@@ -15,7 +15,43 @@ NOT_APPLICABLE = {
            "A structural proxy would fire on harmless edits or decide nothing (DESIGN.md section 7).",
 }
 
+NOTE = TB + " Unsafe code, FFI and the macOS-only cfg branches are not modelled. A shape the rules do not recognise is reported, never skipped."
+
 CHECKS = {
+    "C01": {
+        "text": "For all paths: append_events returns Ok only after wait_for(synced >= its write offset); the synced offset is published only by "
+                "WriterSet::sync after a successful fsync and after the index entries were drained; FlushedOffset is set only after flush+sync_data; "
+                "replacing the segment writer replaces the sync channel (rollover); seglog create/open/set_len keep write offset and file cursor together; "
+                "a failed write is rolled back in the segment it was written to, and the truncation marker is written after the last flush. "
+                "Decides the ack/fsync/publication structure, not byte equality of what is read.",
+        "note": NOTE,
+        "technique": "static analysis: MIR must-pass / dominance, who-may-call, field pairing (PAIR), ordering (no-path) rules",
+    },
+    "C04": {
+        "text": "For all paths of both commit-matching readers: a Transaction is returned only under commit id == pending id and a non-empty list, a Single only "
+                "under a set flag and an empty list, a change of the pending id resets the list, and the two sibling implementations have the same "
+                "(action, path-condition) table; handle_write appends the commit after the events, iff the flag is clear, with no fsync in between, and is the "
+                "only caller of append_event/append_commit; every batch returned by next_batch went through filter_commit.",
+        "note": NOTE,
+        "technique": "static analysis: path-condition tables over MIR (edge dominance), sibling comparison, who-may-call, value-flow",
+    },
+    "C08": {
+        "text": "Decides: the watermark is only written by a guarded compare_exchange in advance (monotone); advance is only called by update_confirmation "
+                "(and caller-less admin overrides); stored confirmation counts only grow (max); the candidate watermark only advances under "
+                "count >= rf/2+1 for the entry at that position; persistence renames temp->current only after write+sync, never removes current, loads "
+                "current before previous; initialize replays from the loaded watermark with the on-disk counts before returning Ok. The order-independence "
+                "argument follows from these by a pencil proof (in the evidence), which is not machine-checked.",
+        "note": NOTE,
+        "technique": "static analysis: who-may-write, guarded-store dominance, monotone-merge shape, call ordering on MIR",
+    },
+    "C09": {
+        "text": "Decides for all paths: history delivery is gated by can_read and stops at the first unconfirmed commit; records are only built in send_record, "
+                "behind wait_for(cursor - ack <= window) and followed by cursor += 1; the live loop filters with has_seen (`<` only) and advances the matcher "
+                "by +1 with the delivered record's fields; the only senders on the broadcast channel are the watermark-gated confirmation-actor loops. "
+                "Does not decide the history/live hand-over race.",
+        "note": NOTE,
+        "technique": "static analysis: GATED / gate-stop path rules, window predicate shape, who-may-construct, comparison polarity on MIR",
+    },
     "C07": {
         "text": "For every path of the seven cluster read handlers, every site that hands an event (or a version/sequence derived from one) "
                 "to a client is dominated by a comparison normalised to `partition_sequence <= watermark-1` (and, for event lookup, "
